@@ -232,9 +232,16 @@ struct PSDom {
   // is specified by its postcondition only (no two disjuncts of the result have an exact upper bound): which pairs are merged
   // depends on the order of the sequence.  A different *order* of the disjuncts may therefore give a different result; this is
   // counted, not reported.  Representations that keep the order (or differ in redundant disjuncts) must give the same value.
+  // "Depends only on the values of the arguments" therefore means for a powerset: the result (as a set of disjunct values) is a
+  // function of the omega-reduced SEQUENCE of disjunct values of the two arguments - independent of how each disjunct is described
+  // and of redundant disjuncts - and for a permuted sequence it is some upper bound (checked) allowed by the pairwise-merge
+  // postcondition.  Stand-alone: {Q1 | P2 | P3} in the orders (1,2,3) and (3,2,1): pairwise_reduce() gives different pairs merged.
   std::string repdep_caveat(const std::string& op, const PSVal&, const PSVal&, const std::string& xn, const std::string& yn, const std::string& known_defect_trigger) const {
     if (op.compare(0, 5, "BGP99") == 0) return "bgp99_pairwise_reduce_and_collapse_follow_the_sequence_order";
-    if (known_defect_trigger != "none") return "";      // reported under the trigger of the known defect
+    // (the known-defect predicate "argument not omega-reduced" no longer takes precedence: that defect is fixed (fecf848), and a
+    // reordered sequence is order-dependent whether or not it also carries a redundant disjunct; the order-preserving pairs
+    // natural / with-duplicate / rebuilt still have to agree exactly, which is what detects a regression of that fix)
+    (void)known_defect_trigger;
     auto reorders = [](const std::string& n) { return n.compare(0, 8, "reversed") == 0 || n.compare(0, 7, "rotated") == 0; };
     return (reorders(xn) || reorders(yn)) ? "pairwise_merge_specified_up_to_the_order_of_the_disjuncts" : "";
   }
